@@ -2,14 +2,16 @@
 # usage: tools/try_mut_wt.sh <patch.diff> <Cxx> [Cxx...]
 #   like try_mut.sh, but the patch is applied to a scratch worktree of /repo's HEAD and the checks read
 #   that tree through SRLIFE_REPO; /repo's own working tree is never touched (safe while `vp run` jobs use it)
+#   VROOT=<copy of /verif> runs the checks from that copy (so that /verif itself can be edited meanwhile)
 P="$1"; shift
+V="${VROOT:-/verif}"
 WT=/tmp/wt/try_$$
 mkdir -p /tmp/wt
 git -C /repo worktree add -q --detach "$WT" HEAD || exit 2
-mkdir -p /verif/out/evidence_keep && cp -f /verif/evidence/*.json /verif/out/evidence_keep/ 2>/dev/null
-trap 'git -C /repo worktree remove --force "$WT" 2>/dev/null; cp -f /verif/out/evidence_keep/*.json /verif/evidence/ 2>/dev/null' EXIT INT TERM
+mkdir -p $V/out/evidence_keep && cp -f $V/evidence/*.json $V/out/evidence_keep/ 2>/dev/null
+trap 'git -C /repo worktree remove --force "$WT" 2>/dev/null; cp -f $V/out/evidence_keep/*.json $V/evidence/ 2>/dev/null' EXIT INT TERM
 (cd "$WT" && git apply "$P") || { echo "patch does not apply"; exit 2; }
-cd /verif
+cd $V
 for c in "$@"; do
   SRLIFE_REPO="$WT" ./check "$c" --tier ${TIER:-quick} 2>&1 | grep -E "^(VIOLATION|KNOWN|C[0-9]+ tier|# |HARNESS)" | cut -c1-400
 done
